@@ -85,7 +85,7 @@ func newEngine(h *Header, withPolicy bool) *twig.Engine {
 	e := twig.New()
 	srcs := map[string]string{}
 	for name, id := range h.Loader {
-		srcs[name] = h.src(id)
+		srcs[engineName(name)] = h.src(id) // (pm stands for p/m ...)
 	}
 	e.RegisterLoader(twig.NewArrayLoader(srcs))
 	if len(h.FS) > 0 {
@@ -189,7 +189,7 @@ func pristine(h *Header, k *OKey) (res OResult) {
 		}
 		return toOResult(t.Render(ctx))
 	}
-	return toOResult(e.Render(k.What.Name, ctx))
+	return toOResult(e.Render(engineName(k.What.Name), ctx))
 }
 
 func cmdOracle(args []string) {
@@ -290,13 +290,13 @@ func runHistory(h *Header, c *HCase, oracle map[string]OResult) (res Result) {
 				trail = append(trail, desc)
 				if op.Via == "renderto" {
 					var b bytes.Buffer
-					err = eng(op.E).RenderTo(&b, op.N, ctx)
+					err = eng(op.E).RenderTo(&b, engineName(op.N), ctx)
 					out = b.String()
 					if err != nil {
 						out = ""
 					}
 				} else {
-					out, err = eng(op.E).Render(op.N, ctx)
+					out, err = eng(op.E).Render(engineName(op.N), ctx)
 				}
 			}
 			got := toOResult(out, err)
